@@ -1,6 +1,11 @@
 import Infretis.Model.Proto
+import Infretis.Model.Template
 open Infretis.Proto
 
-def handle (_toks : List String) : String := "bad-op"
+/-- dispatch over the part models of C19 (each answers `none` for ops that are not its own) -/
+def handle (toks : List String) : String :=
+  match Infretis.Template.handle toks with
+  | some r => r
+  | none => "bad-op"
 
 def main : IO Unit := mainWith handle
